@@ -161,6 +161,7 @@ fn render<C: CellType>(req: &Value) -> Value {
 
 /// `{"op":"render","kind":"ir"|"bc"|"jitbc","prog","w","level"}`: what the library prints
 pub fn op_render(req: &Value) {
+    let t0 = std::time::Instant::now();
     let mut v = match req["w"].as_u64().unwrap_or(8) {
         8 => render::<u8>(req),
         16 => render::<u16>(req),
@@ -168,5 +169,6 @@ pub fn op_render(req: &Value) {
         _ => render::<u64>(req),
     };
     v["id"] = req["id"].clone();
+    v["ms"] = serde_json::json!(t0.elapsed().as_millis() as u64);
     println!("{v}");
 }
